@@ -154,7 +154,7 @@ func Mutate(t *rapid.T, root *Node, donors []*Node, ops []string, wantClass stri
 			return Mutation{Op: op}, false
 		}
 		d := pool[rapid.IntRange(0, len(pool)-1).Draw(t, "donor")]
-		l.Node.Val, l.Node.Bytes = d.Val, append([]byte(nil), d.Bytes...)
+		l.Node.Major, l.Node.Val, l.Node.Bytes = d.Major, d.Val, append([]byte(nil), d.Bytes...)
 		return Mutation{op, l.Path, l.Class, note}, true
 	case OpSwap:
 		a, ok := pickLeaf(func(l Leaf) bool { return l.Node.Major <= 3 })
@@ -172,6 +172,7 @@ func Mutate(t *rapid.T, root *Node, donors []*Node, ops []string, wantClass stri
 			return Mutation{Op: op}, false
 		}
 		b := c[rapid.IntRange(0, len(c)-1).Draw(t, "with")]
+		a.Node.Major, b.Node.Major = b.Node.Major, a.Node.Major
 		a.Node.Val, b.Node.Val = b.Node.Val, a.Node.Val
 		a.Node.Bytes, b.Node.Bytes = b.Node.Bytes, a.Node.Bytes
 		return Mutation{op, a.Path, a.Class, " <-> " + b.Path}, true
